@@ -24,7 +24,7 @@ META = {
     "exhaustive": {"quick": True, "thorough": True},
     "space": {"quick": "all inputs <=4 object leaves x <=4 species leaves (all assignments, mirrored shapes) x 36 (dup, floss) pairs", "thorough": "all inputs <=5 object leaves x <=4 species leaves and a sample of 5x5; random inputs up to 10x8 against THL"},
     "assumptions": ["spe stays at its default 0, as the property is stated"],
-    "timeout": {"quick": 900, "thorough": 7200},
+    "timeout": {"quick": 420, "thorough": 7200},
 }
 
 PAIRS = [(d, f) for d in range(6) for f in range(6)]
